@@ -118,7 +118,7 @@ def _sim_class():
 
 
 class Harness:
-    def __init__(self, kind, tool, seqs=("ACGT", "AC", "ACG"), protein=False):
+    def __init__(self, kind, tool, seqs=("ACGT", "AC", "ACG"), protein=False, custom=False):
         from biotite.sequence import NucleotideSequence, ProteinSequence
 
         self.kind, self.tool = kind, tool
@@ -136,6 +136,17 @@ class Harness:
         self.cleanups = 0
         self._depth = 0
         self.inputs = [(ProteinSequence if protein else NucleotideSequence)(s) for s in seqs]
+        matrix = None
+        if custom and kind in ("muscle3", "mafft"):
+            # sequences of another type: the wrapper maps them onto protein letters for the
+            # program (needs a custom matrix) and must hand back the original sequence objects
+            import numpy as np
+            from biotite.sequence import Alphabet, GeneralSequence
+            from biotite.sequence.align import SubstitutionMatrix
+
+            alph = Alphabet(["foo", "bar", 42, ("t", 1)])
+            self.inputs = [GeneralSequence(alph, [alph.get_symbols()[ord(ch) % 4] for ch in s]) for s in seqs]
+            matrix = SubstitutionMatrix(alph, alph, np.identity(4, dtype=int) * 5 - 2)
         if kind == "sim":
             self.app = _sim_class()(tool)
         else:
@@ -145,7 +156,7 @@ class Harness:
 
             cls = {"clustalo": ClustalOmegaApp, "muscle3": MuscleApp, "muscle5": Muscle5App,
                    "mafft": MafftApp}[kind]
-            self.app = cls(self.inputs, self.bin)
+            self.app = cls(self.inputs, self.bin, matrix) if matrix is not None else cls(self.inputs, self.bin)
             self.app.set_exec_dir(self.exec_dir)
         if tool == "missing" and kind != "sim":
             os.unlink(self.bin)  # the binary disappears before the launch
@@ -450,7 +461,7 @@ def gen_trace(item):
     seqsets = [("ACGT", "AC", "ACG"), ("A", "A", "C"), ("ACGTTGCA", "ACGT", "TTT", "G"),
                ("MKV", "MK", "MKVLA")]
     k = rng.randrange(len(seqsets))
-    h = Harness(kind, tool, seqs=seqsets[k], protein=(k == 3))
+    h = Harness(kind, tool, seqs=seqsets[k], protein=(k == 3), custom=(rng.random() < 0.35))
     events = []
     try:
         weights = {"start": 3, "join": 3, "join_t": 2, "cancel": 2, "state": 3, "proc_exits": 3}
